@@ -1653,3 +1653,36 @@ example : (Gen.View.runOps (id : PyStr → PyStr) (Gen.first []) cookieLens [[0x
     = [[([0x61], [0x78, 0x3b, 0x79]), ([0x62], [0x32])], [([0x61], [0x78, 0x3b, 0x79]), ([0x62], [0x32])]] := by decide
 
 end MitmVerif.Props.C35
+
+-- ------------------------------------------------------------------------------------------------
+-- cross-audit (round 6): the hypotheses of the history-level theorems hold together on concrete, non-empty inputs
+-- ------------------------------------------------------------------------------------------------
+namespace MitmVerif.Props.C35
+open MitmVerif MitmVerif.C35
+open MitmVerif.C35.Spec (ValidFields)
+
+-- api_run_refines_total: a str-keyed assignment (other spelling of an existing name) and a bytes lookup on a non-empty object
+example : Api.encTrace (Api.run [[([0x61], [0x30])]] [.kv .setItem 0 (.s [0x41]) (.b [0x31]), .k1 .getItem 0 (.b [0x61])])
+    = some (Spec.run [[([0x61], [0x30])]] [.setItem 0 [0x41] [0x31], .getItem 0 [0x61]]) :=
+  api_run_refines_total _ _ _ rfl (by intro t ps h; simp at h)
+
+-- http1_roundtrip on the two-field list whose validity is shown above
+example : readHeaders (splitLines (C35.toBytes [([0x48, 0x6f, 0x73, 0x74], [0x61, 0x20, 0x62]), ([0x78, 0x2d, 0x31], [])]))
+    = .ok [([0x48, 0x6f, 0x73, 0x74], [0x61, 0x20, 0x62]), ([0x78, 0x2d, 0x31], [])] :=
+  http1_roundtrip _ (by unfold ValidFields; decide)
+
+-- copy_independent: two objects, every operation addresses object 1, object 0 is the same in every store of the trace
+example : ∀ r ∈ C35.run [[([0x61], [0x31])], [([0x61], [0x31])]] [.setItem 1 [0x41] [0x39], .delItem 1 [0x61], .add 1 [0x62] [0x32]],
+    r.2[0]? = some [([0x61], [0x31])] :=
+  copy_independent _ _ 0 (by decide) (by
+    intro op h
+    simp only [List.mem_cons, List.not_mem_nil, or_false] at h
+    rcases h with rfl | rfl | rfl <;> decide)
+
+-- view_run_refines with a lawful lens (the parent stores the field list itself), on a history that changes the fields
+example : Gen.View.runOps (id : Bytes → Bytes) (Gen.first []) (⟨id, fun _ fs => fs⟩ : Gen.Lens (List (Bytes × Bytes)) Bytes Bytes)
+      [([0x61], [0x31])] [.setItem [0x41] [0x32], .getItem [0x61]]
+    = Gen.runOps id (Gen.first []) [([0x61], [0x31])] [.setItem [0x41] [0x32], .getItem [0x61]] :=
+  view_run_refines id (Gen.first []) ⟨id, fun _ fs => fs⟩ (fun _ _ => rfl) _ _
+
+end MitmVerif.Props.C35
